@@ -114,6 +114,7 @@ fn panic_class(msg: &str, data: &[u8]) -> &'static str {
     if has_overlong(data) { "overlong_utf8_panic" }
     else if msg.contains("attempt to add with overflow") { "int_scan_add_overflow_panic" }
     else if msg.contains("index out of bounds") && mentions_txt(data) { "charstr_entry_no_token_panic" }
+    else if msg.contains("missing token prefix space") && data.starts_with(b"$") && data.contains(&b'"') { "scan_string_closing_quote_panic" }
     else if msg.contains("missing token prefix space") { "panic_reader_missing_prefix_space" }
     else if msg.contains("token not completely read") { "panic_reader_token_not_read" }
     else { "panic_reader" }
@@ -190,17 +191,17 @@ enum Field {
 struct Rec { owner: Name, ttl: u32, rtype: &'static str, fields: Vec<Field> }
 
 #[derive(Clone, Debug)]
-enum Item { Origin(Name), Ttl(u32), Rec(Rec) }
+enum Item { Origin(Name), Ttl(u32), Rec(Rec), Include(Vec<u8>, Option<Name>) }
 
 #[derive(Clone, Copy, Default, Debug)]
 struct Layout {
     comments: bool, blank: bool, parens: bool, spacing: bool, crlf: bool,
-    quote: bool, escape: bool, relname: bool, at: bool, at_rdata: bool,
+    quote: bool, escape: bool, relname: bool, at: bool, at_rdata: bool, quote_include: bool,
     inh_owner: bool, inh_ttl: bool, inh_class: bool, ctr_order: bool,
 }
 
-const REWRITES: [&str; 14] = ["comments", "blank_lines", "parens", "spacing", "crlf", "quoted",
-    "escaped", "relative_name", "at_origin", "inherit_owner", "inherit_ttl", "inherit_class", "class_ttl_order", "at_origin_rdata"];
+const REWRITES: [&str; 15] = ["comments", "blank_lines", "parens", "spacing", "crlf", "quoted",
+    "escaped", "relative_name", "at_origin", "inherit_owner", "inherit_ttl", "inherit_class", "class_ttl_order", "at_origin_rdata", "quoted_include"];
 
 fn layout_of(i: usize) -> Layout {
     let mut l = Layout::default();
@@ -210,8 +211,9 @@ fn layout_of(i: usize) -> Layout {
         8 => l.at = true, 9 => l.inh_owner = true, 10 => l.inh_ttl = true, 11 => l.inh_class = true,
         12 => l.ctr_order = true,
         13 => l.at_rdata = true,
+        14 => l.quote_include = true,
         _ => l = Layout { comments: true, blank: true, parens: true, spacing: true, crlf: true, quote: true,
-                 escape: true, relname: true, at: true, at_rdata: false, inh_owner: true, inh_ttl: true, inh_class: true, ctr_order: true },
+                 escape: true, relname: true, at: true, at_rdata: true, quote_include: false, inh_owner: true, inh_ttl: true, inh_class: true, ctr_order: true },
     }
     l
 }
@@ -342,6 +344,22 @@ fn render(items: &[Item], l: &Layout, r: &mut Rng) -> Vec<u8> {
                 put_name(&mut o, n, &none, l, r, false);
                 eol(&mut o, l, r);
                 origin = Some(n.clone());
+            }
+            Item::Include(path, org) => {
+                o.extend_from_slice(b"$INCLUDE");
+                sep(&mut o, l, r, false);
+                // the path: plain printable text, blanks written as `\ ` or inside quotes
+                if l.quote_include { o.push(b'"'); }
+                for &b in path.iter() {
+                    if !l.quote_include && matches!(b, b' ' | b';' | b'(' | b')') { o.push(b'\\'); }
+                    o.push(b);
+                }
+                if l.quote_include { o.push(b'"'); }
+                if let Some(n) = org {
+                    sep(&mut o, l, r, false);
+                    put_name(&mut o, n, &origin, l, r, false);
+                }
+                eol(&mut o, l, r);
             }
             Item::Ttl(t) => {
                 o.extend_from_slice(b"$TTL");
@@ -488,6 +506,12 @@ fn gen_zone_of(r: &mut Rng, model_types: bool) -> Vec<Item> {
     for _ in 0..nrec {
         if r.chance(1, 8) { origin = gen_name(r, &origin, true); items.push(Item::Origin(origin.clone())); }
         if r.chance(1, 10) { items.push(Item::Ttl(*r.pick(&[0u32, 60, 300, 3600, 7200]))); }
+        if !model_types && r.chance(1, 8) {
+            let n = 1 + r.below(8) as usize;
+            let path: Vec<u8> = (0..n).map(|_| *r.pick(b"abcxyz019./-_ ;(")).collect();
+            let org = if r.chance(1, 2) { Some(gen_name(r, &origin, true)) } else { None };
+            items.push(Item::Include(path, org));
+        }
         if r.chance(1, 2) { let pl = r.chance(3, 4); owner = if r.chance(1, 4) { origin.clone() } else { gen_name(r, &origin, pl) }; }
         let ttl = *r.pick(&[0u32, 60, 300, 300, 3600, 3600, 86400, 2147483647]);
         let plain = r.chance(3, 4);
@@ -573,6 +597,8 @@ fn main() {
         b"a. 1 IN MX 65539 b.\n", b"$TTL 4294967299\n", b"a. 1 IN SOA a. b. 4294967296 1 1 1 1\n",
         b"a. 1 IN DS 1 1 259 00\n",
         b"$ORIGIN x.\n@ 1 IN NS @\n\"@\" NS a\n", b"$INCLUDE \"f i\" x.\n$INCLUDE g\n",
+        // scan_string keeps the closing quote of an unescaped quoted string
+        b"$INCLUDE \"f\"x.\n", b"$INCLUDE \"f\"\n", b"$INCLUDE \"f\\ i\"x.\n", b"\"$TTL\" 5\n", b"$INCLUDE f\\ i x.\n",
         b"( a. 1 IN A 1.2.3.4 )\n", b"a. 1 IN A ( 1.2.3.4\n", b"a. 1 IN A 1.2.3.4 )\n",
         b"a. 1 IN TXT \"a\nb\"\n", b"a. 1 IN TXT \"abc", b"a. 1 IN TXT a\\", b"a. 1 IN TXT a\\0", b"@", b"$", b"\\#",
         b"a. 1 IN TYPE999 \\# 2 0102\n", b"a. 1 IN TYPE999 \\# 0\n", b"a. 1 IN A \\# 4 01020304\n",
@@ -610,7 +636,7 @@ fn main() {
             }
             _ => {
                 let z = gen_zone(&mut r);
-                let l = layout_of(r.below(16) as usize);
+                let l = layout_of(r.below(17) as usize);
                 let mut d = render(&z, &l, &mut r);
                 mutate(&mut r, &mut d);
                 d
@@ -623,7 +649,7 @@ fn main() {
     //      layout, zero to two byte mutations
     for i in 0..1500 * scale {
         let z = gen_zone_of(&mut r, true);
-        let l = layout_of(r.below(16) as usize);
+        let l = layout_of(r.below(17) as usize);
         let mut d = render(&z, &l, &mut r);
         match i % 4 { 0 => {} 1 | 2 => { let p = r.below(d.len() as u64 + 1) as usize; if p < d.len() { d[p] = alpha_byte(&mut r); } } _ => mutate(&mut r, &mut d) }
         totality(&mut out, &el, "model_zone", &d);
@@ -657,21 +683,21 @@ fn main() {
         let cc = format!("read {}", hex(&canon));
         out.begin(&cc);
         let (v0, e0, _) = read_all(&canon);
-        let nrec = z.iter().filter(|i| matches!(i, Item::Rec(_))).count();
+        let nrec = z.iter().filter(|i| matches!(i, Item::Rec(_) | Item::Include(..))).count();
         out.oracle_case(&cc, true, "canonical");
         if let End::Panic(m) = &e0 { out.check(false, panic_class(m, &canon), &cc, m); continue; }
         out.check(e0 == End::Eof && v0.len() == nrec, "wellformed_rejected", &cc, &obs(&v0, &e0));
         if e0 != End::Eof { continue; }
-        for k in 0..15 {
+        for k in 0..16 {
             let l = layout_of(k);
             let alt = render(&z, &l, &mut r);
             if alt == canon { continue; }
             let c = format!("read {} vs {}", hex(&alt), hex(&canon));
             out.begin(&c);
             let (v1, e1, _) = read_all(&alt);
-            out.oracle_case(&c, true, if k < 14 { REWRITES[k] } else { "mixed" });
+            out.oracle_case(&c, true, if k < 15 { REWRITES[k] } else { "mixed" });
             if let End::Panic(m) = &e1 { out.check(false, panic_class(m, &alt), &c, m); continue; }
-            let class = format!("layout_dependent_{}", if k < 14 { REWRITES[k] } else { "mixed" });
+            let class = format!("layout_dependent_{}", if k < 15 { REWRITES[k] } else { "mixed" });
             out.check(v1 == v0 && e1 == e0, &class, &c, &format!("{} <> {}", obs(&v1, &e1), obs(&v0, &e0)));
         }
     }
